@@ -285,6 +285,17 @@ def gen_description(r, ndecl=(2, 9), want=None):
             d = gen_impl(r, structs, pairs)
             if d:
                 decls.append(d)
+                if r.random() < 0.25:
+                    # a second binding of the SAME struct on the SAME protocol under another name (front and rear
+                    # instances of one message): two bindings, both kept
+                    import copy as _copy
+                    twin = _copy.deepcopy(d)
+                    twin["name"] = (d["name"] or d["type"]) + r.choice(["Rear", "_2", "B"])
+                    if (twin["name"], twin["protocol"]) not in pairs:
+                        pairs.add((twin["name"], twin["protocol"]))
+                        if twin["items"] and r.random() < 0.5:
+                            twin["items"] = twin["items"][:-1] or twin["items"]
+                        decls.append(twin)
         elif k == "service":
             nm = fresh()
             decls.append(gen_service(r, nm, structs))
